@@ -6,7 +6,14 @@ Local Open Scope N_scope.
 
 Inductive case :=
   | CPipe (c : cfg) (allow block : list rule) (sb par : list bytes)
-          (q : request) (up : option resp) (obs : outcome).
+          (q : request) (up : option resp) (obs : outcome)
+  (* the same question asked again on a server whose dnsproxy cache is on:
+     [up] is the answer the upstream gave to the FIRST ask (the proxy cache
+     replays it), the rule lists are those in force at the repeat.  The
+     verdict must be that of a fresh ask; the upstream may or may not be
+     asked again, and the proxy rewrites the TTLs of cached records. *)
+  | CRepeat (c : cfg) (allow block : list rule) (sb par : list bytes)
+            (q : request) (up : option resp) (obs : outcome).
 
 Definition taddr_eqb (a b : taddr) : bool := addr_eqb (ta_addr a) (ta_addr b).
 
@@ -50,16 +57,34 @@ Definition outcome_eqb (a b : outcome) : bool :=
   (if o_logged a then result_eqb (o_result a) (o_result b) && Bool.eqb (o_orig_kept a) (o_orig_kept b) else true) &&
   Bool.eqb (o_logged a) (o_logged b).
 
+Definition rr_eqb_mod_ttl (a b : rr) : bool :=
+  eqb_bytes (rr_name a) (rr_name b) && rdata_eqb (rr_data a) (rr_data b).
+
+Definition resp_eqb_mod_ttl (a b : resp) : bool :=
+  (rs_rcode a =? rs_rcode b) && eqb_list rr_eqb_mod_ttl (rs_answer a) (rs_answer b).
+
+(** The repeat: same verdict, same records up to TTL; the upstream asked
+    not at all (served from the proxy cache) or as for a fresh ask. *)
+Definition repeat_eqb (m obs : outcome) : bool :=
+  eqb_option (if r_filtered (o_result m) then resp_eqb else resp_eqb_mod_ttl) (o_resp m) (o_resp obs) &&
+  (match o_calls obs with nil => true | _ => eqb_list call_eqb (o_calls m) (o_calls obs) end) &&
+  (if o_logged m then result_eqb (o_result m) (o_result obs) && Bool.eqb (o_orig_kept m) (o_orig_kept obs) else true) &&
+  Bool.eqb (o_logged m) (o_logged obs).
+
 Definition model (c : case) : outcome :=
   match c with
-  | CPipe cf allow block sb par q up _ =>
+  | CPipe cf allow block sb par q up _
+  | CRepeat cf allow block sb par q up _ =>
       process (match_request allow) (match_request block)
               (fun h => mem_bytes h sb) (fun h => mem_bytes h par)
               cf (fun _ _ => up) q
   end.
 
 Definition case_ok (c : case) : bool :=
-  match c with CPipe _ _ _ _ _ _ _ obs => outcome_eqb (model c) obs end.
+  match c with
+  | CPipe _ _ _ _ _ _ _ obs => outcome_eqb (model c) obs
+  | CRepeat _ _ _ _ _ _ _ obs => repeat_eqb (model c) obs
+  end.
 
 Definition mismatches := Base.Run.mismatches case_ok.
 Definition explain (c : case) := model c.
